@@ -19,7 +19,7 @@ func (a Agg) SQL() string { return a.Fn + "(" + a.Col + ")" }
 // COUNT(col) are only defined here for columns without NULL members.
 func EvalAgg(a Agg, rows []map[string]any) (any, error) {
 	if a.Fn == "COUNT" {
-		if a.Col != "*" {
+		if a.Col != "*" && a.Col != "1" { // COUNT(1) counts rows like COUNT(*)
 			for _, r := range rows {
 				if Lookup(r, a.Col) == nil {
 					return nil, domain("COUNT(col) over a NULL member")
